@@ -43,7 +43,7 @@ package filesys
 // lock protocol: free at entry
 //@ ghost func unlocked(fs *MemFs) bool = !held_w[&fs.m]
 
-//@ props C12 C13 C14
+//@ props C12 C14
 
 //@ func NewMemFs
 //@   ensures [empty, well-formed file system] rinv(result) && fresh(result)
@@ -125,6 +125,7 @@ package filesys
 //@   ensures [invariant, lock released] rinv(fs) && held_w == old(held_w)
 //@   modifies map(fs.dirents), held_w
 
+//@ props C12 C13 C14
 //@ func (*MemFs).AtomicCreate
 //@   requires rinv(fs) && unlocked(fs) && noalias(fs, data)
 //@   lock &fs.m
@@ -138,6 +139,7 @@ package filesys
 //@   ensures [invariant, lock released] rinv(fs) && held_w == old(held_w)
 //@   modifies map(fs.dirents), map(fs.inodes), held_w
 
+//@ props C12 C14
 //@ func (*MemFs).Link
 //@   requires rinv(fs) && unlocked(fs)
 //@   lock &fs.m
@@ -345,7 +347,7 @@ package filesys
 //@   ensures [success: both names share the inode, others untouched] result ==> old(dname(fs, oldDir, oldName)) != 0 && forall d Int, n string :: kdent[d][n] == (d == ddir(fs, newDir) && n == newName ? old(dname(fs, oldDir, oldName)) : old(kdent)[d][n])
 //@   modifies kdent
 
-//@ props C13
+//@ props C12 C13
 
 // target is as it was before (volatile and durable state of its inode untouched) ...
 //@ ghost func asbefore(fs DirFs, dir string, fname string) bool = dname(fs, dir, fname) == old(dname(fs, dir, fname))
